@@ -597,3 +597,44 @@ def storedValue {α : Type} (fields : List (FieldIn α)) : Option (List (String 
   if (storedDict fields).isEmpty then none else some (storedDict fields)
 
 end WM.Columns
+
+namespace WM.Columns
+
+/-! ### Iteration, `load()` and `sort_key` of the readers -/
+
+/-- `VarBytesColumn.Reader.__iter__`: `pos = basepos; for length in self._lengths:
+    yield get(pos, length); pos += length` — the stored offsets are not consulted. -/
+def varIterFrom (data : Bytes) : Nat → List Nat → List Bytes
+  | _, [] => []
+  | pos, l :: ls => slice data pos l :: varIterFrom data (pos + l) ls
+
+def VarR.iter (r : VarR) : List Bytes := varIterFrom r.data 0 r.lengths
+
+/-- `list(reader)` of a `VarBytesColumn`. -/
+def varIter (file : Bytes) (doccount : Nat) : Except Err (List Bytes) :=
+  match VarR.open file doccount with
+  | .error e => .error e
+  | .ok r => .ok r.iter
+
+/-- `FixedBytesColumn.Reader.__iter__` (inherited by `NumericColumn.Reader`): `for i in
+    xrange(doccount): yield self[i] if i < count else default`, with `get` the reader's
+    `__getitem__` and `count = length // fixedlen`. -/
+def fixIter {α : Type} (fixedlen : Nat) (default : α) (get : Nat → α) (data : Bytes) (doccount : Nat) : List α :=
+  (List.range doccount).map fun i => if i < data.length / fixedlen then get i else default
+
+/-- `EmptyColumnReader.__iter__` / a real reader's iteration, per segment. -/
+def SegCol.iter {α : Type} (default : α) : SegCol α → List α
+  | .rows r => r
+  | .empty n => List.replicate n default
+
+/-- `MultiColumnReader.__iter__`: `for r in self._readers: for v in r: yield v`. -/
+def multiIter {α : Type} (default : α) (segs : List (SegCol α)) : List α :=
+  (segs.map (SegCol.iter default)).flatten
+
+/-- `NumericColumn.Reader.sort_key(docnum)`: `key = self[docnum]; if self._reverse: key = 0 - key`. -/
+def numSortKey (c : NumCode) (default : Int) (reverse : Bool) (data : Bytes) (docnum : Nat) : Except Err Int :=
+  match numGet c default data docnum with
+  | .error e => .error e
+  | .ok k => .ok (if reverse then 0 - k else k)
+
+end WM.Columns
